@@ -1133,13 +1133,7 @@ theorem javaThrows_eq (c : JavaCfg) (m : MethodD) : javaThrows c m = javaWantThr
   unfold javaThrows javaWantThrows
   cases m.throwing with
   | none => rfl
-  | some l =>
-    simp only []
-    split
-    · rfl
-    · apply List.map_congr_left
-      intro d _
-      cases d <;> rfl
+  | some l => rfl
 
 theorem javaDeclName_eq (c : JavaCfg) (d : Decl) (hwf : d.wf = true) :
     javaDeclName c d.info (match d with | .function _ a _ _ _ => a | _ => false) =
